@@ -1,6 +1,6 @@
 (* C17 - heartbeats: sent when idle, enforced on the server, off when 0.
    This file only pins statements. *)
-From Amq Require Import Lib.Base Gen.Consts Model.Heartbeat Proofs.Heartbeat.
+From Amq Require Import Lib.Base Gen.Consts Model.Heartbeat Proofs.Heartbeat Model.Wire Model.Frames Model.OutBuf Model.Collector Model.Slots Model.Core Proofs.CoreMore.
 
 (* NOT EARLY: for every trace of reads and timer events, if the server is declared dead at time t then nothing was read during the last (2h - 5 ms) before t: the most recent read (or the start) is at least that old *)
 Theorem C17_not_early : forall (evs : list rx_ev) (h : hb) (t : N) (h' : hb), rx_run h evs = (Some t, h') -> mono (h_last h) evs -> exists last : N, last + h_interval h <= t + fudge_ms /\ h_last h' = last /\ (last = h_last h \/ In (RxRead last) evs).
@@ -50,6 +50,14 @@ Proof. exact zero_disables. Qed.
 Theorem C17_intervals : forall (now secs : N) (rx tx : hb), start_heartbeats now secs = Some (rx, tx) -> h_interval rx = 2000 * secs /\ h_interval tx = 1000 * secs /\ c_max_missed_server_heartbeats = 2.
 Proof. exact intervals. Qed.
 
+(* the loop over the timer (process_heartbeat_timers): an expired rx entry is reported in the pass that finds it, whatever is due before it in that pass - stale rx firings, tx firings with or without output pending *)
+Theorem C17_missed_not_masked : forall (pre rest : list (hbkind * bool)) (c : core), (forall (k : hbkind) (b : bool), In (k, b) pre -> (k, b) <> (HbRx, true)) -> fst (heartbeat_timers (pre ++ (HbRx, true) :: rest) c) = OErr EMissedHeartbeats.
+Proof. exact missed_heartbeats_not_masked. Qed.
+
+(* ... and a pass without an expired rx entry never fails *)
+Theorem C17_pass_ok : forall (fired : list (hbkind * bool)) (c : core), (forall (k : hbkind) (b : bool), In (k, b) fired -> (k, b) <> (HbRx, true)) -> fst (heartbeat_timers fired c) = OOk.
+Proof. exact heartbeat_pass_ok. Qed.
+
 (* non-vacuity: h = 1: a read at 900 ms, silence afterwards, timer events at 2000 and 2900 *)
 Example C17_example :
   match start_heartbeats 0 1 with
@@ -70,6 +78,8 @@ Check C17_no_send_when_busy : forall (h : hb) (t : N), tx_run h [TxFire t false]
 Check C17_no_send_after_write : forall (h : hb) (t : N), h_last h <= t -> t - h_last h + fudge_ms < h_interval h -> tx_run h [TxFire t true] = [].
 Check C17_zero : forall now : N, start_heartbeats now 0 = None.
 Check C17_intervals : forall (now secs : N) (rx tx : hb), start_heartbeats now secs = Some (rx, tx) -> h_interval rx = 2000 * secs /\ h_interval tx = 1000 * secs /\ c_max_missed_server_heartbeats = 2.
+Check C17_missed_not_masked : forall (pre rest : list (hbkind * bool)) (c : core), (forall (k : hbkind) (b : bool), In (k, b) pre -> (k, b) <> (HbRx, true)) -> fst (heartbeat_timers (pre ++ (HbRx, true) :: rest) c) = OErr EMissedHeartbeats.
+Check C17_pass_ok : forall (fired : list (hbkind * bool)) (c : core), (forall (k : hbkind) (b : bool), In (k, b) fired -> (k, b) <> (HbRx, true)) -> fst (heartbeat_timers fired c) = OOk.
 
 Print Assumptions C17_not_early.
 Print Assumptions C17_prompt.
@@ -83,4 +93,6 @@ Print Assumptions C17_no_send_when_busy.
 Print Assumptions C17_no_send_after_write.
 Print Assumptions C17_zero.
 Print Assumptions C17_intervals.
+Print Assumptions C17_missed_not_masked.
+Print Assumptions C17_pass_ok.
 Print Assumptions C17_example.
